@@ -1,7 +1,9 @@
 import TFV.Properties.EA
 import TFV.Properties.Heap
+import TFV.Properties.Src.UpdateData
 #print axioms TFV.EA.C17_history
 #print axioms TFV.EA.C17_first_entry
 #print axioms TFV.Heap.C17_snapshots
 #print axioms TFV.Heap.C17_inputs
 #print axioms TFV.Heap.C17_get
+#print axioms TFV.SrcTie.C17_src_update_data
